@@ -55,6 +55,7 @@ type c09Ref struct {
 	ignore   bool
 	b        map[int64]*c09B
 	alive    bool
+	kind     string // first mismatch class
 	why      string
 }
 
@@ -202,28 +203,20 @@ func c09RunWindow(m *vk.M, idx int, sc c09Scenario, obs *c09Obs) {
 			}
 			if k := c09Compare(got, want); k != "" {
 				r.alive = false
+				r.kind = k
 				r.why = fmt.Sprintf("%s at step %d %+v (virtual now=%d, bucket %d of grid origin %d): Reduce shows %v, reference %v",
 					k, step, st, now, r.idx(now), r.origin, got, want)
-				if r == refs[0] {
-					refs[0].why = k + "|" + r.why
-				}
 				continue
 			}
 			anyAlive = true
 			obs.lastGot, obs.lastWant = got, want
 		}
 		if !anyAlive {
-			kind, detail := "mismatch", refs[0].why
-			for i := 0; i < len(detail); i++ {
-				if detail[i] == '|' {
-					kind, detail = detail[:i], detail[i+1:]
-					break
-				}
-			}
+			detail := refs[0].why
 			if len(refs) > 1 {
 				detail += " || absolute grid: " + refs[1].why
 			}
-			m.Violate("C09:window:"+kind+sigSuffix, desc(), "size=%d interval=%dns ignoreCurrent=%v: %s", sc.Size, sc.Interval, sc.Ignore, detail)
+			m.Violate("C09:window:"+refs[0].kind+sigSuffix, desc(), "size=%d interval=%dns ignoreCurrent=%v: %s", sc.Size, sc.Interval, sc.Ignore, detail)
 			return false
 		}
 		_, gc := c09Totals(got)
@@ -449,7 +442,7 @@ func TestVerifC09RaceAdders(t *testing.T) {
 	phases := vk.N(60, 300)
 	const adders, readers = 16, 4
 	r := m.Rand("race-adders")
-	var totalAdds, totalReads, expiries int64
+	var totalAdds, totalReads, expiries, comparisons int64
 	for w := 1; w <= nWindows; w++ {
 		if !m.Only(w) {
 			continue
@@ -475,7 +468,6 @@ func TestVerifC09RaceAdders(t *testing.T) {
 		}
 		failed := false
 		visibleAtBarrier := false
-		prevCount := int64(0)
 		for ph := 0; ph < phases && !failed; ph++ {
 			// per-goroutine add lists, fixed before the goroutines start
 			lists := make([][]int, adders)
@@ -577,14 +569,14 @@ func TestVerifC09RaceAdders(t *testing.T) {
 				failed = true
 				break
 			}
-			_, gc = c09Totals(got)
-			if gc > 0 {
+			_, gc2 := c09Totals(got)
+			if gc2 > 0 {
 				visibleAtBarrier = true
 			}
-			if gc < prevCount || (gc < baseCount+phaseCount && !ign) {
+			if gc2 < gc {
 				expiries++
 			}
-			prevCount = gc
+			comparisons += 2
 		}
 		m.Case(vk.Digest(desc), visibleAtBarrier || (ign && size == 1))
 		if m.WantSample() {
@@ -593,6 +585,6 @@ func TestVerifC09RaceAdders(t *testing.T) {
 	}
 	m.Count("concurrent_adds", totalAdds)
 	m.Count("concurrent_reduces", totalReads)
-	m.Count("barrier_comparisons", int64(nWindows*phases*2))
+	m.Count("barrier_comparisons", comparisons)
 	m.Count("expiries_observed", expiries)
 }
